@@ -255,8 +255,24 @@ def dispatcher_histories(repo):
     rel, cn = "yowsup/layers/network/dispatcher/dispatcher_asyncore.py", "AsyncoreConnectionDispatcher"
     c = repo.cls(rel, cn)
 
-    def reports(it):
-        return [e[1].split(".")[-1] for e in flat_effects(it.effects) if e[0] == "CALL" and e[1].startswith("callbacks.")]
+    cbcls = repo.cls("yowsup/layers/network/dispatcher/dispatcher.py", "ConnectionCallbacks")
+
+    def harness(extra=None):
+        """interpreter + a dispatcher of class `c` built by its own constructor around a ConnectionCallbacks object whose
+        methods (the interface the class declares) are recorded"""
+        log = []
+
+        def rec(name):
+            def h(itp, recv, a, k, env, d, e):
+                if recv[0] == "obj" and recv[1].cls is cbcls:
+                    log.append(name)
+                    return C_NONE
+                return None
+            return h
+        hooks = {"method:" + n: rec(n) for n in cbcls.methods}
+        hooks.update(extra or {})
+        it = Interp(repo, {}, {}, hooks=hooks)
+        return it, ("obj", Obj(cbcls)), log
     HOST = ("list", [("c", "e1.whatsapp.net"), ("c", 443)])
     for label, steps in (("connect, connected, closed by the peer", ["connect", "handle_connect", "handle_close"]),
                          ("connect, the attempt fails (socket error before the connection is up)", ["connect", "handle_error"]),
@@ -264,20 +280,20 @@ def dispatcher_histories(repo):
                          ("connect, connected, socket error", ["connect", "handle_connect", "handle_error"]),
                          ("connect, connected, disconnect requested", ["connect", "handle_connect", "disconnect"]),
                          ("connect, disconnect requested while still connecting", ["connect", "disconnect"])):
-        it = Interp(repo, {}, {})
-        o = Obj(c)
-        o.fields.update({"connectionCallbacks": ("ext", "callbacks", []), "_connected": ("c", False), "_send_lock": ("ext", "RLock()", []), "out_buffer": ("c", b"")})
+        it, cbs, log = harness()
         try:
+            o = it.construct(c, [cbs], {}, {"@module": c.module, "@owner": None}, 0, None)
+            o[1].fields.setdefault("out_buffer", ("c", b""))          # asyncore's own attribute
             for m in steps:
                 if repo.find_method(c, m)[1] is None:
                     continue        # not overridden: the library's own default (does nothing that reports)
                 try:
-                    it.method_call(("obj", o), m, [HOST] if m == "connect" else [], {}, {"@module": c.module, "@owner": c}, 0, None)
+                    it.method_call(o, m, [HOST] if m == "connect" else [], {}, {"@module": c.module, "@owner": c}, 0, None)
                 except _Raise:
                     pass
-        except (NeedAtom, Budget, DomainGrew):
+        except (NeedAtom, Budget, DomainGrew, _Raise):
             return None
-        out.append((c, label, reports(it)))
+        out.append((c, label, list(log)))
     rel, cn = "yowsup/layers/network/dispatcher/dispatcher_socket.py", "SocketConnectionDispatcher"
     c = repo.cls(rel, cn)
     for label, script in (("connect refused", {"connect": "raise", "recv": []}),
@@ -298,18 +314,17 @@ def dispatcher_histories(repo):
             if x == "raise":
                 raise _Raise(("ext", "OSError", []), "OSError: connection reset")
             return ("c", x)
-        it = Interp(repo, {}, {}, hooks={"anymethod:connect": sock_connect, "anymethod:recv": sock_recv, "ext:*.connect": sock_connect, "ext:*.recv": sock_recv})
+        it, cbs, log = harness({"anymethod:connect": sock_connect, "anymethod:recv": sock_recv, "ext:*.connect": sock_connect, "ext:*.recv": sock_recv})
         it.loop_unroll = 8          # the read loop is driven by the scripted socket until it ends the connection
-        o = Obj(c)
-        o.fields.update({"connectionCallbacks": ("ext", "callbacks", []), "socket": C_NONE})
         try:
+            o = it.construct(c, [cbs], {}, {"@module": c.module, "@owner": None}, 0, None)
             try:
-                it.method_call(("obj", o), "connect", [HOST], {}, {"@module": c.module, "@owner": c}, 0, None)
+                it.method_call(o, "connect", [HOST], {}, {"@module": c.module, "@owner": c}, 0, None)
             except _Raise:
                 pass
-        except (NeedAtom, Budget, DomainGrew):
+        except (NeedAtom, Budget, DomainGrew, _Raise):
             return None
-        out.append((c, label, reports(it)))
+        out.append((c, label, list(log)))
     return out
 
 
